@@ -93,6 +93,18 @@ pub fn run_jobs_main(args: &[String]) {
                     .ok()
                     .and_then(|v| v.get("timeout").and_then(|t| t.as_f64()))
                     .unwrap_or(timeout);
+                // "fresh": the job must run in a process that has never generated anything, and the
+                // process is discarded afterwards
+                let fresh = serde_json::from_str::<Value>(line)
+                    .ok()
+                    .and_then(|v| v.get("fresh").and_then(|t| t.as_bool()))
+                    .unwrap_or(false);
+                if fresh {
+                    if let Some(mut w) = worker.take() {
+                        drop(w.stdin);
+                        let _ = w.child.wait();
+                    }
+                }
                 if worker.is_none() {
                     worker = Some(spawn_worker(&stderr_path));
                 }
@@ -144,6 +156,12 @@ pub fn run_jobs_main(args: &[String]) {
                            "ms": t0.elapsed().as_millis() as u64})
                     .to_string()
                 };
+                if fresh {
+                    if let Some(mut w) = worker.take() {
+                        drop(w.stdin);
+                        let _ = w.child.wait();
+                    }
+                }
                 let mut o = out.lock().unwrap();
                 writeln!(o, "{}", result_line).unwrap();
             }
